@@ -208,6 +208,77 @@ func TestC21Concurrent(t *testing.T) {
 		c.Count("concurrent_checkpoint_batches_written", 60)
 		close(stop)
 		wg.Wait()
+		// third phase: reorganisations.  The main-chain index of the top heights is rewritten again and again
+		// (branch A = the blocks above, branch B = other headers at the same heights, from a random fork height)
+		// while readers look exactly those heights up.  After SaveChainStatus returned, the index read through
+		// the long-lived store is the one just written; at rest it equals what a fresh store reads from the database.
+		const top = 24
+		alt := make([]*types.BlockHeader, n)
+		altHash := make([]bc.Hash, n)
+		for i := n - top; i < n; i++ {
+			alt[i] = &types.BlockHeader{Version: 1, Height: uint64(i), PreviousBlockHash: randHash(rng), Timestamp: 1700000000000 + uint64(i)*1000}
+			altHash[i] = alt[i].Hash()
+		}
+		var ixReads int64
+		ixStop := make(chan struct{})
+		var iwg sync.WaitGroup
+		for g := 0; g < 4; g++ {
+			gr := rng.Fork()
+			iwg.Add(1)
+			go func() {
+				defer iwg.Done()
+				for {
+					select {
+					case <-ixStop:
+						return
+					default:
+					}
+					st.GetMainChainHash(uint64(n - 1 - gr.Intn(top)))
+					atomic.AddInt64(&ixReads, 1)
+				}
+			}()
+		}
+		current := make([]bc.Hash, n)
+		copy(current, hashes)
+		for round := 0; round < 80; round++ {
+			from := n - 1 - rng.Intn(top)
+			useAlt := round%2 == 0
+			var seg []*types.BlockHeader
+			for i := from; i < n; i++ {
+				if useAlt {
+					seg = append(seg, alt[i])
+					current[i] = altHash[i]
+				} else {
+					seg = append(seg, &blocks[i].BlockHeader)
+					current[i] = hashes[i]
+				}
+			}
+			tip := seg[len(seg)-1]
+			th := tip.Hash()
+			if err := st.SaveChainStatus(tip, seg, state.NewUtxoViewpoint(), state.NewContractViewpoint(), uint64(0), &th); err != nil {
+				report("concurrent:writer:save-chain-status-failed", err.Error())
+				break
+			}
+			for i := from; i < n; i++ {
+				if mh, err := st.GetMainChainHash(uint64(i)); err != nil || *mh != current[i] {
+					report("concurrent:writer:main-chain-hash-stale-after-reorganisation", fmt.Sprintf("round %d height %d (index rewritten from height %d): err=%v", round, i, from, err))
+					break
+				}
+			}
+		}
+		close(ixStop)
+		iwg.Wait()
+		fresh := database.NewStore(db)
+		for i := n - top; i < n; i++ {
+			a, err1 := st.GetMainChainHash(uint64(i))
+			b, err2 := fresh.GetMainChainHash(uint64(i))
+			if err1 != nil || err2 != nil || *a != *b || *b != current[i] {
+				report("concurrent:final:main-chain-hash-differs-from-database", fmt.Sprintf("height %d: long-lived store and a fresh store over the same database disagree (or differ from what was written): err=%v/%v", i, err1, err2))
+				break
+			}
+		}
+		c.Count("concurrent_index_reads_during_reorganisations", ixReads)
+		c.Count("concurrent_reorganisations_written", 80)
 		c.Eval(int64(n))
 		c.Count("concurrent_blocks_written_and_read_back", int64(n))
 		c.Count("concurrent_reads", reads)
@@ -229,4 +300,5 @@ func TestC21Concurrent(t *testing.T) {
 	r.Floor("concurrent_reads", 10000)
 	r.Floor("concurrent_reads_before_the_write", 100)
 	r.Floor("concurrent_checkpoint_reads", 20000)
+	r.Floor("concurrent_index_reads_during_reorganisations", 20000)
 }
